@@ -426,4 +426,8 @@ Proof.
   - eapply stepS_main_events; eauto 6.
   - eapply stepS_complete; eauto.
   - eapply stepS_done; eauto.
+  - (* EExtDrop: only the registry cell changes *)
+    simpl in H. destruct (reg s) as [x|]; [|discriminate].
+    destruct (forallb is_empty x); [|discriminate]. injection H as <-.
+    destruct I. constructor; simpl; auto.
 Qed.
